@@ -76,9 +76,12 @@ def kill_group(p):
         pass
 
 
-def run_cmd(cmd, cwd, timeout, mem_gb=24, log=None):
+def run_cmd(cmd, cwd, timeout, mem_gb=24, log=None, extra_env=None):
     t0 = time.time()
-    p = subprocess.Popen(cmd, cwd=cwd, env=env(), stdout=subprocess.PIPE, stderr=subprocess.STDOUT,
+    e = env()
+    if extra_env:
+        e.update(extra_env)
+    p = subprocess.Popen(cmd, cwd=cwd, env=e, stdout=subprocess.PIPE, stderr=subprocess.STDOUT,
                          preexec_fn=_limits(mem_gb), text=True, errors="replace")
     timed_out = False
     try:
@@ -194,7 +197,9 @@ def run_harness(name, mod, slot, cap, logdir, extra=()):
     return r
 
 
-def run_all(names, mods, jobs, cap, logdir, progress=True):
+def run_all(names, mods, jobs, cap, logdir, progress=True, on_result=None):
+    """on_result(r, slot) runs in the worker while it still holds its slot (used to replay a
+    counterexample at once, so a VIOLATION line is out long before the slow harnesses end)."""
     os.makedirs(logdir, exist_ok=True)
     pool = Pool(jobs)
     results = {}
@@ -203,6 +208,8 @@ def run_all(names, mods, jobs, cap, logdir, progress=True):
         s = pool.take()
         try:
             r = run_harness(n, mods[n], s, cap, logdir)
+            if on_result:
+                on_result(r, s)
         finally:
             pool.give(s)
         if progress:
@@ -220,7 +227,7 @@ def run_all(names, mods, jobs, cap, logdir, progress=True):
 PLAYBACK_RE = re.compile(r"```\n(.*?)```", re.S)
 
 
-def replay(name, mod, slot, logdir, cap=1800):
+def replay(name, mod, slot, logdir, cap=1800, want=None, panics_ok=False):
     """Ask Kani for the solver's assignment as a unit test, then execute that test
     natively (real /repo build, no stubs) in the dev and the release profile.
     Returns (verdict, info): verdict in {"reproduced", "not-reproduced", "no-test"}."""
@@ -241,7 +248,7 @@ def replay(name, mod, slot, logdir, cap=1800):
     shutil.copytree(HARNESS, scratch, ignore=shutil.ignore_patterns("target", "kani-list.json"))
     verdicts = {}
     test_src_all = []
-    for k, t in enumerate(tests[:3]):
+    for k, t in enumerate(tests[:40]):
         fname = re.search(r"fn (kani_concrete_playback_\w+)", t).group(1)
         t2 = re.sub(r"concrete_playback_run\(concrete_vals, (\w+)\)", r"concrete_playback_run(concrete_vals, crate::%s::\1)" % mod, t)
         test_src_all.append(t2)
@@ -252,21 +259,37 @@ def replay(name, mod, slot, logdir, cap=1800):
         f.write("\n#[cfg(kani)]\nmod playback_tests;\n")
     shutil.copy(os.path.join(scratch, "src", "playback_tests.rs"), os.path.join(rdir, "playback_tests.rs"))
     reproduced_all = True
+    build_failed = False
     outs = {}
     for prof in ("dev", "release"):
-        cmd = ["cargo", "kani", "playback", "-Z", "concrete-playback"]
+        cmd = ["cargo", "kani", "playback", "-Z", "concrete-playback", "--", "kani_concrete_playback"]
+        # `cargo kani playback` has no --release: the release profile users run is approximated by
+        # overriding the test profile (opt-level 3, no debug assertions, no overflow checks)
+        xe = None
         if prof == "release":
-            cmd.append("--release")
-        cmd += ["--", "kani_concrete_playback"]
-        rc, pout, to, dt = run_cmd(cmd, scratch, cap, mem_gb=48, log=os.path.join(logdir, "%s.playback-%s.log" % (name, prof)))
+            xe = {"CARGO_PROFILE_TEST_OPT_LEVEL": "3", "CARGO_PROFILE_TEST_DEBUG_ASSERTIONS": "false", "CARGO_PROFILE_TEST_OVERFLOW_CHECKS": "false",
+                  "CARGO_PROFILE_DEV_OPT_LEVEL": "3", "CARGO_PROFILE_DEV_DEBUG_ASSERTIONS": "false", "CARGO_PROFILE_DEV_OVERFLOW_CHECKS": "false"}
+        rc, pout, to, dt = run_cmd(cmd, scratch, cap, mem_gb=48, log=os.path.join(logdir, "%s.playback-%s.log" % (name, prof)), extra_env=xe)
         # a reproduced violation = the test panics with one of OUR property messages
         msgs = sorted(set(re.findall(r"panicked at [^\n]*:\n([^\n]*)", pout)))
         failed = "test result: FAILED" in pout
-        outs[prof] = {"failed": failed, "panics": msgs[:5], "rc": rc}
+        built = "could not compile" not in pout and "test result:" in pout
+        if failed and want is not None:
+            # the native failure must be the property's own: one of the assertions the solver
+            # reported (C12: any panic that is not an assertion of another property)
+            own = [m for m in msgs if any(w in m or m in w for w in want)]
+            if panics_ok:
+                own += [m for m in msgs if not re.match(r"^(C\d\d[:/]|harness|model:)", m)]
+            failed = bool(own)
+        outs[prof] = {"failed": failed, "panics": msgs[:5], "rc": rc, "built": built}
         if not failed:
             reproduced_all = False
+        if not built:
+            build_failed = True
     shutil.rmtree(scratch, ignore_errors=True)
     info = {"harness": "%s::%s" % (mod, name), "profiles": outs, "test": os.path.join(rdir, "playback_tests.rs")}
+    if build_failed:
+        return "replay-build-failed", info
     return ("reproduced" if reproduced_all else "not-reproduced"), info
 
 
